@@ -147,8 +147,8 @@ inline std::string tmutate(const TArt &a, int c, size_t v, vf::Rng &r, const std
 }
 
 // line mutations for the relay of interactive protocols (one prover line -> 0..n lines)
-enum { L_NCLASS = 12 };
-static const char *const lclass_name[L_NCLASS] = { "drop", "dup", "empty", "non-digit", "minus", "zero", "negate", "plus1", "huge", "long-line", "field-mut", "eof" };
+enum { L_NCLASS = 14 };
+static const char *const lclass_name[L_NCLASS] = { "drop", "dup", "empty", "non-digit", "minus", "zero", "negate", "plus1", "huge", "long-line", "field-mut", "eof", "stack-resize", "index-oob" };
 inline std::vector<std::string> lmutate(const std::string &l, int c, vf::Rng &r) {
 	std::vector<std::string> o;
 	switch (c) {
@@ -165,6 +165,21 @@ inline std::vector<std::string> lmutate(const std::string &l, int c, vf::Rng &r)
 	case 10: { TArt a = tparse(l); static const int cls[] = { T_DEL, T_DUP, T_CNT, T_DIM, T_NONDIG, T_NUM, T_TRUNC, T_FLIP, T_DELIM };
 		int k = cls[r.below(sizeof(cls) / sizeof(cls[0]))]; size_t n = tcount(a, k); o.push_back(n ? tmutate(a, k, r.below(n), r, "") : l + "|"); break; }
 	case 11: break;   // handled by the relay (closes the connection)
+	case 12: { // well-formed stack / stack secret / card (secret) of other dimensions than the local statement
+		TArt a = tparse(l);
+		if (l.compare(0, 4, "sts^") == 0 && a.f.size() >= 4) { // sts^n^idx^crs...^ -> one element with index 0
+			size_t e = l.find('^', l.find('^', l.find('^', 4) + 1) + 1); std::string first = l.substr(l.find('^', l.find('^', 4) + 1) + 1, e == l.npos ? l.npos : e - (l.find('^', l.find('^', 4) + 1) + 1));
+			std::string crs = first; // text of the first card secret
+			if (crs.compare(0, 4, "crs|") == 0 && r.coin()) { TArt c = tparse(crs); if (c.f.size() >= 5) crs = "crs|1|1|" + c.f[3].txt + "|" + c.f[4].txt + "|"; }   // QR: dimensions 1x1
+			o.push_back(r.coin() ? "sts^1^0^" + crs + "^" : "sts^2^1^" + crs + "^0^" + crs + "^"); break; }
+		if (l.compare(0, 4, "stk^") == 0) { size_t b = l.find('^', 4); size_t e = b == l.npos ? l.npos : l.find('^', b + 1); if (e != l.npos) { std::string card = l.substr(b + 1, e - b - 1); o.push_back("stk^1^" + card + "^"); break; } }
+		if ((l.compare(0, 4, "crd|") == 0 || l.compare(0, 4, "crs|") == 0) && a.cnt.size() >= 2 && a.f.size() >= 5) { o.push_back(l.substr(0, 4) + "1|1|" + a.f[3].txt + "|" + (l[2] == 's' ? a.f[4].txt + "|" : "")); break; }
+		size_t n = tcount(a, T_DIM); o.push_back(n ? tmutate(a, T_DIM, r.below(n), r, "") : l + "^"); break; }
+	case 13: { // permutation index / count fields of a stack secret out of range
+		TArt a = tparse(l);
+		if (l.compare(0, 4, "sts^") == 0 && a.f.size() >= 3) { std::vector<Field> f = a.f; static const char *v[] = { "4294967296", "2147483648", "18446744073709551615", "999" }; unsigned long n = strtoul(f[1].txt.c_str(), 0, 10);
+			size_t w = r.below(5); f[2].txt = w == 0 ? std::to_string(n) : v[w - 1]; o.push_back(tjoin(f)); break; }
+		size_t n = tcount(a, T_CNT); o.push_back(n ? tmutate(a, T_CNT, r.below(n), r, "") : l + "0"); break; }
 	}
 	return o;
 }
